@@ -100,10 +100,25 @@ pub fn run_hs(t: &Templates, seed: u64, scn: &Value) -> Value {
     let real = real_encrypt(&plain, &s_priv, &s_claim, &rs, &e_priv, &e_claim, &payload);
     // the specification as encryptor
     let env = Env::new().b("s_priv", &s_priv).b("s_pub", &s_claim).b("e_priv", &e_priv).b("e_pub", &e_claim).b("rs", &rs).b("payload", &payload);
-    let spec = match (t.eval("key_header", &env), t.eval("key_file_key", &env)) {
+    let forge = jstr_or(sc, "forge", "none").to_string();
+    let (th, tk) = match forge.as_str() {
+        "skip_ss" => ("key_header_skip_ss", "key_file_key_skip_ss"),
+        "zero_ss" => ("key_header_zero_ss", "key_file_key_zero_ss"),
+        _ => ("key_header", "key_file_key"),
+    };
+    // a forged handshake cannot come from the real encryptor
+    let real = if forge == "none" { real } else { Err("n/a") };
+    let spec = match (t.eval(th, &env), t.eval(tk, &env)) {
         (Ok(h), Ok(k)) => {
             let mut f = h;
-            f.extend_from_slice(&t.chunk_record(&k, &t.must("key_prefix", &env), 0, 1, &plain));
+            let prefix = t.must("key_prefix", &env);
+            // the chunking the real encryptor produces from a source that fills every read
+            let n = std::cmp::max(1, (plain.len() + 65535) / 65536);
+            for i in 0..n {
+                let lo = i * 65536;
+                let hi = std::cmp::min(plain.len(), lo + 65536);
+                f.extend_from_slice(&t.chunk_record(&k, &prefix, i as u64, if i + 1 == n { 1 } else { 0 }, &plain[lo..hi]));
+            }
             Ok(f)
         }
         (Err(EvalError::Prim(_)), _) | (_, Err(EvalError::Prim(_))) => Err("err"),
@@ -111,15 +126,17 @@ pub fn run_hs(t: &Templates, seed: u64, scn: &Value) -> Value {
     };
     let wrote = real.is_ok();
     let enc = match &real {
+        Err("n/a") => "ok",
         Ok(_) => "ok",
         Err(e) => e,
     };
     let spec_wrote = spec.is_ok();
-    let same = match (&real, &spec) {
+    let same = forge != "none" || match (&real, &spec) {
         (Ok(a), Ok(b)) => a == b,
         (Err(_), Err(_)) => true,
         _ => false,
     };
+    let wrote = if forge == "none" { wrote } else { spec.is_ok() };
     let mut out = json!({"ev":"hs","id":scn.get("id").cloned().unwrap_or(json!("")),"sc":sc.clone(),"class":scn.get("class").cloned().unwrap_or(json!("")),
                          "lo":lo,"wrote":wrote,"enc":enc,"spec_wrote":spec_wrote,"same":same,
                          "dec":"n/a","sender":"","plain_ok":false});
